@@ -37,8 +37,52 @@ DESC = {
  'C20-1': ('C20', "fix_whitespace skips the blank-line passes unless the RAW text contains three newlines in a row", 'surplus blank-line run whose blank lines carry spaces, in a file without a literal triple newline'),
  'C20-2': ('C20', 'rst() pads a trailing double quote only on the plain route', 'single-line comment with a markup character that ends in a double quote, at a site that closes the docstring right after it'),
  'C05-2': ('C05', 'asyncio client extends repeated flattened fields again for dependency-package requests', 'asyncio client + request from a dependency package + non-empty repeated scalar flattened field'),
+ 'C01-3': ('C01', 'MessageType.with_context mutates the shared visited set instead of copying it: later references to an already visited message keep the un-aliased module name', 'a type of another file of the package referenced twice from one message (directly and through a nested message / map entry), module name shadowed by a field name'),
+ 'C01-4': ('C01', 'client import block built from a set of Import objects whose hash ignores the alias', 'a flattened parameter named like the types module of another file (aliased inside that method) next to a method using the plain module name'),
+ 'C02-1': ('C02', 'oneof names kept on the loader object: fields of a later message resolve their oneof index against the names of the previously loaded message', 'two messages with oneofs in one file (sibling declared after a message with other oneofs)'),
+ 'C02-2': ('C02', 'Address.rel returns the bare name of a top-level message whenever the referencing message sorts before it in module_path', 'twin references: a message referencing a top-level message declared later in the same file'),
+ 'C03-3': ('C03', 'has_iam_mixin override test keeps only the LAST service (loop overwrites instead of accumulating)', 'two services, the IAM RPCs declared by the first one, IAMPolicy mixin listed'),
+ 'C03-4': ('C03', 'dict requests of dependency-package types parsed with json_format.ParseDict instead of keyword expansion', 'dependency-package request passed as dict with a bytes field'),
+ 'C04-3': ('C04', 'path-variable regex made greedy / dotted: two variables in one URI collapse into one', 'URI with a dotted variable or two variables'),
+ 'C04-4': ('C04', 'query params from MessageToDict without use_integers_for_enums', 'rest-numeric-enums + enum-valued query parameter'),
+ 'C05-3': ('C05', 'flattened fields of dependency-package requests: enum fields offered as keywords but dropped by the asyncio constructor call', 'asyncio client + dependency-package request + enum flattened field'),
+ 'C05-4': ('C05', 'Ads client: dict branch for every request type; proto-plus requests no longer coerced', 'ads-templates + dependency-package request / keyword arguments'),
+ 'C06-3': ('C06', 'REST sync transport mutates session.headers with per-call metadata: routing header of an earlier call leaks into later calls', 'two REST calls on one client, the second without routing header'),
+ 'C06-4': ('C06', 'routing regex loses its ^ anchor and is applied with search', 'explicit routing template that matches a suffix of the field value only'),
+ 'C07-3': ('C07', 'pager request copied only in the sync client macro; asyncio client keeps mutating the caller request', 'asyncio client + one request object used for two listings'),
+ 'C07-4': ('C07', 'paging control fields that are oneof members (proto3 optional) no longer qualify', 'proto3-optional page_size / max_results / page_token'),
+ 'C09-3': ('C09', 'backoff multiplier rendered only when > 1', 'retryPolicy with backoffMultiplier 1 (or below)'),
+ 'C09-4': ('C09', 'sync pager re-issues the call without retry= and timeout=', 'sync paginated call with explicit retry / timeout, second page'),
+ 'C11-3': ('C11', "empty path segments collapsed by one str.replace('//','/') instead of the regex", 'ads-templates (adjacent %version/%sub variables) + unversioned package'),
+ 'C11-4': ('C11', 'file-name disambiguation rewritten as a loop that forgets to recompute the visited path', 'two target files whose names sanitise to the same module (lib_admin.proto before lib.admin.proto)'),
+ 'C14-1': ('C14', 'sample region-tag short name taken from the first service for all services', 'two services with different default hosts'),
+ 'C14-2': ('C14', 'sample request builder never expands a message type twice', 'request with two required message fields of the same type'),
+ 'C15-3': ('C15', 'snippet generator deletes the rest entry from a cached clients mapping shared with gapic_metadata', 'transport=grpc+rest with snippets on and metadata on'),
+ 'C15-4': ('C15', 'legacy_flattened_fields (fix-up script table) filtered like method signatures for dependency-package requests', 'RPC whose request type lives in a dependency package and has a message field'),
+ 'C16-1': ('C16', 'map entry messages no longer added to the address allow-list', 'selective generation keeping a method whose messages hold a map field'),
+ 'C16-2': ('C16', 'operation polling method walked only the first time the operation service is seen', 'selective generation listing a non-polling RPC of the operation service before an extended-operation RPC'),
+ 'C18-3': ('C18', 'duplicate selector detection by itertools.groupby (adjacent duplicates only)', 'three method_settings entries with the duplicate selectors not adjacent'),
+ 'C18-4': ('C18', 'Ads auto-populate ignores proto3 optional presence', 'ads-templates + proto3-optional auto-populated field explicitly set to the empty string'),
 }
 HISTORY = {
+ 'C01-3': 'MISSED at first; caught after feature f_crossfile got a field named like the other module plus nested/map references to its types',
+ 'C01-4': 'MISSED at first; caught after feature f_crossfile got RPCs StampBook (flattened parameter named like the module) and GetAuthor',
+ 'C02-2': 'MISSED at first; caught after twin reference targets (forward references between top-level messages) were added to Types.tla',
+ 'C03-3': 'MISSED at first (by C03 and C17); caught by C17 after Mixins.tla got two-service layouts (own_first / own_last)',
+ 'C03-4': 'MISSED at first; caught after the Call carrier got a bytes field (blob)',
+ 'C05-3': 'MISSED at first; caught after the optional enum keyword of dependency-package requests (constant DepEnumOffered) was modelled in Call.tla',
+ 'C05-4': 'MISSED at first; caught after the Call carrier was also run with the Ads template set',
+ 'C07-3': 'MISSED at first; caught after the pager driver listed twice with one request object',
+ 'C07-4': 'MISSED at first; caught after proto3-optional paging fields were added to Paging.tla',
+ 'C09-4': 'caught by C07 (PagerTrace: re-issued call must carry the same options); C09 itself has no paged method',
+ 'C11-3': 'MISSED at first; caught after the Ads layout (scope ads) was added to Pipeline.tla',
+ 'C11-4': 'MISSED at first; caught after scope twins (two files sanitising to one module, both orders) was added to Pipeline.tla',
+ 'C14-1': 'MISSED at first; caught after the sample space got two services with different hosts',
+ 'C14-2': 'MISSED at first; caught after the sample request space got two required message fields of one type',
+ 'C15-4': 'MISSED at first; caught after extra=xreq (RPC with a dependency-package request) was added to Pipeline.tla',
+ 'C16-2': 'MISSED at first; caught after the ext scope of Selective.tla got a non-polling RPC of the operation service and both declaration orders',
+ 'C18-3': 'MISSED at first; caught after Settings.tla enumerated three-entry lists',
+ 'C18-4': 'MISSED at first; caught after the Call carrier was also run with the Ads template set',
  'C15-1': 'MISSED at first; caught after service pairs were added to the tiny scope of Pipeline.tla and `internal` to the shapes scope',
  'C15-2': 'MISSED at first; caught after the carrier request got non-monotonic field numbers',
  'C03-1': 'MISSED at first; caught after the call driver was changed to two clients on two servers (own-channel flag in sent events, CallTrace requires it)',
